@@ -484,7 +484,7 @@ def run(ctx):
     shards = [cases[i::nshard] for i in range(nshard)]
     tmpd = tempfile.mkdtemp(prefix="c11_", dir="/tmp")
     rs = ctx.impl_par("c11_tie.py", [{"cases": sh, "out": os.path.join(tmpd, "tie_%d.json" % i)} for i, sh in enumerate(shards)],
-                      timeout=3000 if thorough else 1200)
+                      timeout=7200 if thorough else 1200)
     rs = [_from_file(x) for x in rs]
     tm["tie impl"] = time.time() - t_
     t_ = time.time()
@@ -537,7 +537,7 @@ def run(ctx):
         if texts:
             items.append(("tie_%d" % si, MODEL_IMPORT + "\n".join(texts)))
             expected["tie_%d" % si] = exp
-    outs = ctx.coq_eval_many(items, timeout=3000 if thorough else 900) if (items and ok_build) else {}
+    outs = ctx.coq_eval_many(items, timeout=7200 if thorough else 900) if (items and ok_build) else {}
     for name, exp in expected.items():
         rc, out = outs.get(name, (1, "not run"))
         lists = common.parse_Z_lists(out) if rc == 0 else None
@@ -591,7 +591,7 @@ def run(ctx):
         ecases.append(gen_env_case(rng))
     eshards = [ecases[i::nshard] for i in range(nshard)]
     ers = ctx.impl_par("c11_envtie.py", [{"cases": sh, "out": os.path.join(tmpd, "env_%d.json" % i)} for i, sh in enumerate(eshards)],
-                       timeout=3000 if thorough else 1200)
+                       timeout=7200 if thorough else 1200)
     ers = [_from_file(x) for x in ers]
     env_bad = []
     eitems = []
@@ -615,7 +615,7 @@ def run(ctx):
         if texts:
             eitems.append(("env_%d" % si, ENV_IMPORT + "\n".join(texts)))
             eexp["env_%d" % si] = metas
-    eouts = ctx.coq_eval_many(eitems, timeout=3000 if thorough else 900) if (eitems and ok_build) else {}
+    eouts = ctx.coq_eval_many(eitems, timeout=7200 if thorough else 900) if (eitems and ok_build) else {}
     env_cases = 0
     env_qn2 = 0
     env_values = 0
@@ -649,7 +649,7 @@ def run(ctx):
     mps_specs = [gen_mps_spec(rng) for _ in range(200 if thorough else 14)]
     nsh = 14
     payloads = [{"specs": specs[i::nsh], "mps": mps_specs[i::nsh], "out": os.path.join(tmpd, "or_%d.json" % i)} for i in range(nsh)]
-    ro = ctx.impl_par("c11_oracle.py", payloads, timeout=3000 if thorough else 1200)
+    ro = ctx.impl_par("c11_oracle.py", payloads, timeout=7200 if thorough else 1200)
     ro = [_from_file(x) for x in ro]
     shutil.rmtree(tmpd, ignore_errors=True)
     or_fail = []
@@ -659,17 +659,19 @@ def run(ctx):
     or_crash = []
     n_contract = 0
     n_qn2 = 0
+    n_zero = 0
     for rc, res, out in ro:
         if res is None:
             or_crash.append((out or "")[-1200:])
             continue
         n_contract += res.get("contract_checks", 0)
         n_qn2 += res.get("qn2_specs_run", 0)
+        n_zero += res.get("zero_result_skips", 0)
         or_checked += res["checked"]
         or_specs += res["specs_run"]
         or_skipped += len(res["skipped"])
         or_fail += res["failures"]
-    ctx.notes.append("oracle: %d specs with two-component quantum numbers ran (expectation, norm, normalize, RDMs, ...)" % n_qn2)
+    ctx.notes.append("oracle: %d specs with two-component quantum numbers ran (expectation, norm, normalize, RDMs, ...); %d specs where the operator annihilates the state: canonicalise/compress of the zero vector skipped" % (n_qn2, n_zero))
     ctx.notes.append("oracle: %d comparisons on %d specs (%d skipped: random state not constructible), %d failures; "
                      "%d logged svd_qn factorisations inside canonicalise/compress checked against the witness contract M = Q.V^T"
                      % (or_checked, or_specs, or_skipped, len(or_fail), n_contract))
